@@ -28,7 +28,7 @@ from indi.routing import Router  # noqa: E402
 
 NONE = "none"
 NOREFRESH = "norefresh"
-NUM = {"n1": 1.5, "n2": 2.25, "n3": -0.5, "n4": 100.0, "fresh": 7.75}
+NUM = {"n1": 1.5, "n2": 2.25, "n3": -0.5, "n4": 100.0, "fresh": 7.75, "n5": 1.2345678}     # n5: not representable in the coarser formats
 BLOBS = {"b1": (b"\x00\x01payload-one\xff", ".bin"), "b2": (b"second \x7f\x80 blob", ".fits.z"), "fresh": (b"fresh", ".f")}
 LIGHTS = ["Idle", "Ok", "Busy", "Alert"]
 FORMATS = ["%.2f", "%f", "%7.3f", "%.6m", "%10.9m"]
